@@ -386,6 +386,9 @@ func GenAPIHistory(t *rapid.T) APIHistory {
 		h.MaxSubmitMs = 200
 	}
 	h.NoRecovery = pct(t, 30, "noRecovery")
+	if pct(t, 40, "slowRead") {
+		h.SlowReadNth, h.SlowReadUs = rng(t, 1, 10, "slowReadNth"), pick(t, []int{300, 1500, 5000}, "slowReadUs")
+	}
 	for i := 0; i < np; i++ {
 		if pct(t, 85, "submitFirst") {
 			h.Ops = append(h.Ops, APIOp{Kind: OpSubmit, Plan: i})
